@@ -15,14 +15,16 @@ def plan(tier, seed):
     specs = [(1, 2), (2, 2), (3, 2), (4, 2), (5, 1), (6, 0)] if tier == 'quick' else \
             [(1, 3), (2, 3), (3, 3), (4, 2), (5, 2), (6, 1), (7, 0)]
     return {
-        'chunks': sweep.shape_chunks(specs, per_chunk=60),
+        'chunks': sweep.shape_chunks(specs, per_chunk=60, big=True) + [{'kind': 'clipipe'}],
         'rule': 'every hierarchy over n tokens (all discontinuous shapes) with up to u unary '
                 'insertions at every position, each built with child lists in model order, '
                 'reversed and rotated, and as delivered by the export and TIGER-XML readers; every node and every ordered pair of nodes queried, on the fresh tree, after re-attaching the last / first token by hand, and after deleting the last / first token with trees.delete_terminal (expected tree from the reference editor). '
                 'non-trivial = distinct (shape, child order) with >= 2 constituents',
         'bound': ', '.join('n=%d:u<=%d' % s for s in specs),
         'exhaustive': True,
-        'assumptions': ['trees are built through Tree()/children/parent only',
+        'assumptions': ['driver differential (vt/clipipe.py): `treetools transform` with the pipelines that involve this operation, with and without --split, on a six-sentence corpus must write what the named functions give when applied by the harness in the given order',
+                        'beyond the bound: %d fixed hierarchies with 11-13 tokens (two-digit token numbers, ten children, depth 11) as size probes' % len(model.big_shapes()),
+                        'trees are built through Tree()/children/parent only',
                         'labels are unique per node so that nodes can be identified'],
     }
 
@@ -253,11 +255,19 @@ def compare_live(t, mt, case, out, phase):
 
 
 def check_case(case):
+    if 'clipipe' in case:
+        from .. import clipipe
+        return clipipe.replay(case)
     with quiet():
         return check_tree(case['mt'], case['order'])
 
 
 def run_chunk(chunk):
+    if chunk.get('kind') == 'clipipe':
+        from .. import clipipe
+        res = Result()
+        clipipe.run_property(ID, res)
+        return res
     res = Result()
     with quiet():
         for sh, k in sweep.iter_shapes(chunk):
